@@ -1,0 +1,19 @@
+//go:build verif
+
+package id
+
+// Contracts checked by /verif's govc.  Comments only; build tag "verif".
+
+//@ unit id
+//@
+//@ // ===== C06: the short-id caches belong to one transaction: binding a context to a transaction always installs
+//@ // new, empty caches (a context that is bound again, e.g. for a retry, must not see what a discarded
+//@ // transaction cached)
+//@ func InitCollectionShortIDCache -> (r)
+//@   ensures called(WithValue, 1) && r == res(WithValue, 1, 0)
+//@   assert before call#1 WithValue: arg0 == ctx
+//@   tags C06
+//@ func InitFieldShortIDCache -> (r)
+//@   ensures called(WithValue, 1) && r == res(WithValue, 1, 0)
+//@   assert before call#1 WithValue: arg0 == ctx
+//@   tags C06
